@@ -40,6 +40,9 @@ func (r *run) corpus(ctx sdk.Context) error {
 	sw := func(s int, exactIn bool, din int, amt int64, tag string) amm.Op {
 		return amm.Op{Kind: "swap", Sender: s, ExactIn: exactIn, DenomIn: din, Amount: bi(amt), Tag: "corpus/" + tag}
 	}
+	swX := func(s int, exactIn bool, din int, tag string) amm.Op { // amount fixed when the case runs
+		return amm.Op{Kind: "swap", Sender: s, ExactIn: exactIn, DenomIn: din, Amount: bi(1_000_000), Tag: "corpus/cross/" + tag}
+	}
 	cl := func(s int, tag string, ids ...uint64) amm.Op {
 		return amm.Op{Kind: "claim", Sender: s, Pids: ids, Tag: "corpus/" + tag}
 	}
@@ -75,6 +78,19 @@ func (r *run) corpus(ctx sdk.Context) error {
 		sw(1, true, 1, 90_000_000, "small-up"),
 		cl(2, "claim-E", d+1),
 		cl(1, "claim-F", d+2),
+		// swaps that cross exactly one initialised tick - a bound of some of the positions above -
+		// and stop just beyond it, exact-out and exact-in, both directions; the positions inside and
+		// beyond the tick then claim
+		swX(0, false, 1, "exact-out-up"),
+		cl(1, "claim-B-D-F", b, d, d+2),
+		swX(1, false, 0, "exact-out-down"),
+		cl(0, "claim-A", a),
+		swX(2, false, 0, "exact-out-down-again"),
+		cl(2, "claim-C-E", c, d+1),
+		swX(0, true, 1, "exact-in-up"),
+		swX(1, true, 0, "exact-in-down"),
+		cl(1, "claim-B-D-F", d+2, d, b),
+		cl(0, "claim-A", a),
 		cl(0, "claim-not-owner", b),
 		// an allocation made the way BeginBlock makes it (no transaction around the keeper call)
 		// whose bank send fails (the sender does not hold the coins): nothing may be accrued
@@ -83,6 +99,11 @@ func (r *run) corpus(ctx sdk.Context) error {
 		{Kind: "claim", Sender: 0, Pids: []uint64{}, Tag: "corpus/claim-empty"},
 	}
 	for _, o := range ops {
+		if len(o.Tag) > 13 && o.Tag[:13] == "corpus/cross/" {
+			if a := r.crossAmount(ctx, p, o.Sender, o.ExactIn, o.DenomIn); a != nil {
+				o.Amount = a
+			}
+		}
 		if len(o.Tag) > 11 && o.Tag[:11] == "corpus/cur/" {
 			pool, _, _ := r.w.K.GetPool(ctx, p.ID)
 			o.Lower += pool.CurrentTick
@@ -91,6 +112,74 @@ func (r *run) corpus(ctx sdk.Context) error {
 		r.doCase(ctx, p, o, gh, false)
 	}
 	return nil
+}
+
+// crossAmount sizes a swap so that it crosses exactly the nearest initialised tick in its direction
+// and stops just beyond it (the step that reaches the tick and the step after it are both real
+// trade steps, with different in-range liquidity when a position ends or starts at that tick).
+// The amount is found by bisection on discarded cache contexts of the real keeper. nil if there is
+// no such tick or no amount does it.
+func (r *run) crossAmount(ctx sdk.Context, p amm.PoolInfo, sender int, exactIn bool, din int) *big.Int {
+	pool, _, _ := r.w.K.GetPool(ctx, p.ID)
+	cur := pool.CurrentTick
+	var next int64
+	found := false
+	for _, t := range r.w.K.GetAllInitializedTicksForPool(ctx, p.ID) {
+		if din == 1 { // price up: smallest initialised tick above the cursor
+			if t.TickIndex > cur && (!found || t.TickIndex < next) {
+				next, found = t.TickIndex, true
+			}
+		} else if t.TickIndex <= cur && (!found || t.TickIndex > next) { // price down: largest one at or below it
+			next, found = t.TickIndex, true
+		}
+	}
+	if !found {
+		return nil
+	}
+	crossed := func(a *big.Int) (ok, did bool) {
+		c, _ := ctx.CacheContext()
+		if _, err := r.w.Exec(c, p, amm.Op{Kind: "swap", Sender: sender, ExactIn: exactIn, DenomIn: din, Amount: a}); err != nil {
+			return false, false
+		}
+		q, _, _ := r.w.K.GetPool(c, p.ID)
+		if din == 1 {
+			return true, q.CurrentTick >= next
+		}
+		return true, q.CurrentTick < next
+	}
+	// grow until the tick is crossed (or the swap stops working), then bisect for the smallest such amount
+	lo, hi := bi(0), bi(1000)
+	for i := 0; ; i++ {
+		ok, did := crossed(hi)
+		if ok && did {
+			break
+		}
+		if (!ok && hi.Cmp(bi(1000)) > 0) || i > 120 {
+			return nil
+		}
+		if ok {
+			lo = new(big.Int).Set(hi)
+		}
+		hi = new(big.Int).Mul(hi, bi(2))
+	}
+	for i := 0; i < 200 && new(big.Int).Sub(hi, lo).Cmp(bi(1)) > 0; i++ {
+		mid := new(big.Int).Rsh(new(big.Int).Add(lo, hi), 1)
+		if ok, did := crossed(mid); ok && did {
+			hi = mid
+		} else {
+			lo = mid
+		}
+	}
+	// a little beyond the tick: +2 % of the amount that just reaches it (at least 1000 units)
+	extra := new(big.Int).Div(hi, bi(50))
+	if extra.Cmp(bi(1000)) < 0 {
+		extra = bi(1000)
+	}
+	amt := new(big.Int).Add(hi, extra)
+	if ok, _ := crossed(amt); !ok {
+		return nil
+	}
+	return amt
 }
 
 func (r *run) nextID(ctx sdk.Context) uint64 {
@@ -165,7 +254,36 @@ func (r *run) genOp(ctx sdk.Context, p amm.PoolInfo) amm.Op {
 				lo = q.LowerTick
 			}
 		case 6:
-			if rd.Bool() {
+			if rd.Chance(2, 3) {
+				// a range that ends or starts exactly at the nearest initialised tick above / below the
+				// price: crossing that tick changes who is in range
+				var above, below int64
+				ha, hb := false, false
+				for _, t := range w.K.GetAllInitializedTicksForPool(ctx, p.ID) {
+					if t.TickIndex > cur && (!ha || t.TickIndex < above) {
+						above, ha = t.TickIndex, true
+					}
+					if t.TickIndex <= cur && (!hb || t.TickIndex > below) {
+						below, hb = t.TickIndex, true
+					}
+				}
+				switch {
+				case ha && rd.Bool():
+					if rd.Bool() {
+						lo, up, tag = cur-a, above, "ends-at-next-above"
+					} else {
+						lo, up, tag = above, above+b, "starts-at-next-above"
+					}
+				case hb && below-a < below:
+					if rd.Bool() {
+						lo, up, tag = below, cur+b, "starts-at-next-below"
+					} else {
+						lo, up, tag = below-a, below, "ends-at-next-below"
+					}
+				default:
+					lo, up, tag = cur-a, cur, "upper-on-current"
+				}
+			} else if rd.Bool() {
 				lo, up, tag = cur-a, cur, "upper-on-current"
 			} else {
 				lo, up, tag = cur-a*4, cur+b*4, "wide"
@@ -204,6 +322,10 @@ func (r *run) genOp(ctx sdk.Context, p amm.PoolInfo) amm.Op {
 			amt, tag = bi(1), tag+"/1"
 		case 1:
 			amt, tag = bi(int64(2+rd.Intn(2000))), tag+"/small"
+		case 2, 3, 4, 5, 6: // cross exactly the nearest initialised tick and stop just beyond it
+			if a := r.crossAmount(ctx, p, sender, exactIn, din); a != nil {
+				amt, tag = a, tag+"/cross-one"
+			}
 		}
 		if amt.Sign() == 0 {
 			amt = bi(1)
